@@ -235,8 +235,7 @@ def r_lookup(ctx):
                 continue
             got = unmut(gets[0].d["ret"])
             v = unmut(p.value)
-            dec = [d for d in p.decisions() if unmut(d.d["cond"]) == got]
-            none_arm = any(d.d.get("pat") is not None and d.d["pat"]["k"] == "PathPat" and d.d["pat"].get("def", "").endswith("Option::None") for d in dec)
+            none_arm = knows(p, ("variant", got, "core::option::Option::None", True)) is not None
             if none_arm:
                 seen.add("none")
                 ok = is_call_to(v, lambda s: s == "core::result::Result::Ok") and is_call_to(v[2][0], lambda s: s == "core::option::Option::None") and len([e for e in p.events if e.kind == "call" and e.d["fn"] in lfn]) == 0
@@ -297,7 +296,12 @@ def r_finish_pair(ctx):
             pushes = [e for e in p.events if e.kind == "call" and e.d["fn"] in rle]
             incs = [e for e in p.events if e.kind == "assign" and e.d.get("compound") == "+" and e.d.get("name")]
             appends = [e for e in p.events if e.kind == "call" and e.d["fn"].endswith("Vec::<T, A>::append") or (e.kind == "call" and e.d["fn"].endswith("::extend_from_slice")) or (e.kind == "call" and e.d["fn"].endswith("Vec::<T, A>::extend"))]
-            gets = [d for d in p.decisions() if d.d["how"] == "iflet" and is_call_to(unmut(d.d["cond"]), lambda s: s == HM + "get")]
+            gets = []
+            seen_probe = set()
+            for fct, d in path_facts(p):
+                if fct[0] == "variant" and fct[2] == "core::option::Option::Some" and is_call_to(fct[1], lambda s: s == HM + "get") and d.loops and id(d) not in seen_probe:
+                    seen_probe.add(id(d))
+                    gets.append((d, fct[3]))
             mins = [e for e in p.events if e.kind == "call" and e.d["fn"] == HM + "insert" and e.loops]
             if not pushes and not appends:
                 # zero iterations or a skipped tile: nothing may be counted or laid out
@@ -307,7 +311,8 @@ def r_finish_pair(ctx):
                 obs.append(Ob("R-FINISH-PAIR", fn, "one entry per laid-out tile", False, "entry pushes: %d, dedup probes: %d" % (len(pushes), len(gets)), rel(f["loc"])))
                 continue
             pu = pushes[0]
-            hit = gets[0].d["outcome"] is True
+            hit = gets[0][1]
+            gets = [gets[0][0]]
             arms.add("hit" if hit else "miss")
             probe = unmut(gets[0].d["cond"])
             hmap, hkey = probe[2][0], probe[2][1]
@@ -323,7 +328,7 @@ def r_finish_pair(ctx):
             if tile is not None:
                 tval = ("proj", tile, 1)
                 if hkey == ("proj", tval, "TileManagerTile::Hash.0"):
-                    ok_hash = any(d.d.get("pat") is not None and _pat_has_ctor(d.d["pat"], HASH_CTOR) and d.d["outcome"] is True for d in p.decisions(gets[0].seq))
+                    ok_hash = knows(p, ("variant", tval, HASH_CTOR, True), gets[0].seq) is not None
                 elif is_call_to(hkey, lambda s: s in hf) and content is not None and hkey[2][0] == content:
                     ok_hash = True
             obs.append(Ob("R-FINISH-PAIR", fn, "%s: dedup key = tile's hash (stored hash, or content hash of the fetched bytes)" % ("hit" if hit else "miss"), ok_hash and ok_tid, "key = %s" % tstr(hkey)[:100], gets[0].loc()))
@@ -535,7 +540,7 @@ def _asc_by_id(s):
                 (a[0] == "f" and b[0] == "f" and a[2] == "0" and b[2] == "0" and a[1][0] == "v" and b[1][0] == "v" and _param_order(s, a[1], b[1]))
             return bool(ok), "comparator = %s" % tstr(body)[:100]
         return False, "comparator = %s (not a.0.cmp(&b.0))" % tstr(body)[:100]
-    ok = body[0] == "f" and body[2] == "0" and body[1][0] == "v"
+    ok = (body[0] == "f" and body[2] == "0" and body[1][0] == "v") or (body[0] == "proj" and body[2] == 0 and body[1][0] == "v")
     return ok, "key = %s" % tstr(body)[:80]
 
 
@@ -572,8 +577,8 @@ def r_hashid(ctx):
         fa = ctx.fa(f)
         seen = False
         for p in fa.paths:
-            for d in p.decisions():
-                if d.d["how"] == "iflet" and d.d["outcome"] is True and is_call_to(unmut(d.d["cond"]), lambda s: s == HM + "get"):
+            for fct, d in path_facts(p):
+                if fct[0] == "variant" and fct[2] == "core::option::Option::Some" and fct[3] is True and is_call_to(fct[1], lambda s: s == HM + "get") and d.loops:
                     fetch = [e for e in p.events if e.kind == "call" and e.d["fn"] in set(x["path"] for x in lazy_fetchers(ctx))]
                     content = unmut(fetch[0].d["ret"]) if fetch else None
                     cmpd = content is not None and _bytes_compared(p, len(p.events), content)
